@@ -22,10 +22,10 @@ if [ -n "$demo_rs" ]; then
   t=$(basename $demo_rs .rs)
   cargo test -p $p --test $t --offline > $WT/MUTATION/demo_with.log 2>&1; rc1=$?
   echo "demo with change: rc=$rc1 $(grep -E '^test result:' $WT/MUTATION/demo_with.log | tail -1)" | tee -a $LOG
-  git stash -q
+  git diff > /tmp/confirm_patch_$ID$SFX.diff; git apply -R /tmp/confirm_patch_$ID$SFX.diff
   cargo test -p $p --test $t --offline > $WT/MUTATION/demo_without.log 2>&1; rc2=$?
   echo "demo without change: rc=$rc2 $(grep -E '^test result:' $WT/MUTATION/demo_without.log | tail -1)" | tee -a $LOG
-  git stash pop -q
+  git apply /tmp/confirm_patch_$ID$SFX.diff; rm -f /tmp/confirm_patch_$ID$SFX.diff
 fi
 for s in $WT/MUTATION/demo/*.sh; do [ -f "$s" ] || continue
   cargo build -q --offline -p typeshare-cli 2>/dev/null
